@@ -157,7 +157,7 @@ const RAW_TYPES: &[&str] = &[
     "web_manifest", "xbl", "xml_dtd", "xslt", "fetch", "", "IMAGE", "popup",
 ];
 const SCHEMES: &[&str] = &["http", "https", "ws", "wss"];
-const BAD_SCHEMES: &[&str] = &["ftp", "data", "chrome-extension", "file", "blob", "about", "htt", "httpss", "wsss", "HTTP"];
+const BAD_SCHEMES: &[&str] = &["ftp", "data", "chrome-extension", "file", "blob", "about", "htt", "httpss", "wsss", "HTTP", "javascript", "mailto", "data", "about"];
 
 fn domain_value(r: &mut Rng) -> String {
     let n = r.range(1, 4);
@@ -954,7 +954,18 @@ fn main() {
     for _ in 0..n {
         let scheme = if r.chance(1, 4) { r.pick(SCHEMES) } else { r.pick(BAD_SCHEMES) };
         let host = r.pick(gen::HOSTS);
-        let url = format!("{}://{}/ads1", scheme, host);
+        // a third of the URLs with an unsupported scheme are written the way such URLs are: with no
+        // `//` behind the colon (data:, about:, javascript:, blob:https://..., mailto:)
+        let url = if !SCHEMES.contains(&scheme) && r.chance(1, 3) {
+            match r.below(4) {
+                0 => format!("{}:text/html,<img src=ads1.png>", scheme),
+                1 => format!("{}:https://{}/ads1", scheme, host),
+                2 => format!("{}:ads1@{}", scheme, host),
+                _ => format!("{}:{}/ads1", scheme, host),
+            }
+        } else {
+            format!("{}://{}/ads1", scheme, host)
+        };
         let mut rules = vec!["*".to_string(), format!("||{}^", host), "ads".to_string(), "*$document".to_string(), "*$important".to_string()];
         if r.chance(1, 2) {
             rules.push(format!("||{}^$removeparam=utm", host));
